@@ -54,7 +54,7 @@ func c19Scenario(c *choice.Ctx, rep *report.R, depth int) {
 		uq.Reply(env.Answer(uq.Msg, serial, ttl).Encode(false))
 	}
 	// initial fetch per group at t=0.3 (ttl 20 => lifetime 20 s, last quarter starts at 15 s)
-	time.Sleep(300 * time.Millisecond)
+	hsleep(300 * time.Millisecond)
 	groupSerial := map[string]byte{}
 	for _, cl := range []*client{clients[0], clients[2]} {
 		cl.sc.SendMsg(q)
@@ -70,7 +70,7 @@ func c19Scenario(c *choice.Ctx, rep *report.R, depth int) {
 		cl.nresp++
 	}
 	fetchedAt := time.Now()
-	time.Sleep(15500 * time.Millisecond) // 15.5 s: inside the last quarter
+	hsleep(15500 * time.Millisecond) // 15.5 s: inside the last quarter
 	wait()
 	// expected state per group
 	type gstate struct {
@@ -162,7 +162,7 @@ func c19Scenario(c *choice.Ctx, rep *report.R, depth int) {
 			}})
 			menu = append(menu, event{name: fmt.Sprintf("refresh-error(%s)", g), fault: true, do: func() { p.Fail(); gs[g].refreshes++ }})
 		}
-		menu = append(menu, event{name: "advance1s", do: func() { time.Sleep(time.Second) }})
+		menu = append(menu, event{name: "advance1s", do: func() { hsleep(time.Second) }})
 		ev := pickEvent(c, menu)
 		if ev == nil {
 			break
